@@ -876,3 +876,12 @@ M("C17-benign-includer-dir-local", "C17", "src/cppparser/cppPreprocessor.cxx",
 M("C06-function-type-ignores-class-owner", "C06", "src/cppparser/cppFunctionType.cxx",
   "  if (_class_owner != ot->_class_owner) {\n    // A pointer-to-member-function type also names the class.\n    if (_class_owner == nullptr || ot->_class_owner == nullptr ||\n        *_class_owner != *ot->_class_owner) {\n      return false;\n    }\n  }\n", "",
   expect="R06.1|CPPFunctionType::is_equal|_class_owner")
+
+M("C07-char-literal-unsigned", "C07", "src/cppparser/cppPreprocessor.cxx",
+  "  if (!str.empty()) {\n    result.u.integer = (int)str[0];\n  } else {\n    result.u.integer = 0;\n  }\n\n  return get_literal(CHAR_TOK",
+  "  if (!str.empty()) {\n    result.u.integer = (unsigned char)str[0];\n  } else {\n    result.u.integer = 0;\n  }\n\n  return get_literal(CHAR_TOK",
+  expect="R07.7|CPPPreprocessor::get_quoted_char|char-literal-value")
+M("C07-benign-char-literal-signed-char", "C07", "src/cppparser/cppPreprocessor.cxx",
+  "  if (!str.empty()) {\n    result.u.integer = (int)str[0];\n  } else {\n    result.u.integer = 0;\n  }\n\n  return get_literal(CHAR_TOK",
+  "  if (!str.empty()) {\n    result.u.integer = (int)(signed char)str[0];\n  } else {\n    result.u.integer = 0;\n  }\n\n  return get_literal(CHAR_TOK",
+  benign=True)
